@@ -513,12 +513,12 @@ impl<'a> CompiledPredicate<'a> {
         let mut star_ti = 0;
 
         while ti < text.len() {
-            if pi < pattern.len() && (pattern[pi] == b'_' || pattern[pi] == text[ti]) {
-                ti += 1;
-                pi += 1;
-            } else if pi < pattern.len() && pattern[pi] == b'%' {
+            if pi < pattern.len() && pattern[pi] == b'%' {
                 star_pi = Some(pi);
                 star_ti = ti;
+                pi += 1;
+            } else if pi < pattern.len() && (pattern[pi] == b'_' || pattern[pi] == text[ti]) {
+                ti += 1;
                 pi += 1;
             } else if let Some(sp) = star_pi {
                 pi = sp + 1;
@@ -543,14 +543,14 @@ impl<'a> CompiledPredicate<'a> {
         let mut star_ti = 0;
 
         while ti < text.len() {
-            if pi < pattern.len()
+            if pi < pattern.len() && pattern[pi] == b'%' {
+                star_pi = Some(pi);
+                star_ti = ti;
+                pi += 1;
+            } else if pi < pattern.len()
                 && (pattern[pi] == b'_' || pattern[pi].eq_ignore_ascii_case(&text[ti]))
             {
                 ti += 1;
-                pi += 1;
-            } else if pi < pattern.len() && pattern[pi] == b'%' {
-                star_pi = Some(pi);
-                star_ti = ti;
                 pi += 1;
             } else if let Some(sp) = star_pi {
                 pi = sp + 1;
